@@ -722,6 +722,104 @@ func (g *Gen) expand(pat string, v View) {
 		st = append(st, advance(g.dur("d3", 2*et, 3*et, 4*et)), submitAt("anyleader", "write"), advance(hb))
 		st = append(st, lit(Action{Op: "heal", Mode: "deliver"}), advance(g.dur("d4", hb, et)))
 		g.push("P23", st...)
+	case "P24": // two membership changes from one configuration: the cut-off old leader adds a node, a fresh leader that cannot commit yet is asked to remove one
+		if leader == "" || !g.P.Membership {
+			g.push("P24", advance(et))
+			return
+		}
+		cf := v.Conf[leader]
+		var voters []string
+		if cf != nil {
+			for id, voter := range cf.Members {
+				if voter && id != leader {
+					voters = append(voters, id)
+				}
+			}
+		}
+		sort.Strings(voters)
+		spare := ""
+		for i := 0; i < 7; i++ {
+			id := nodeID(i)
+			if cf != nil {
+				if _, ok := cf.Members[id]; ok {
+					continue
+				}
+			}
+			spare = id
+			break
+		}
+		if len(voters) < 3 || spare == "" {
+			g.push("P24", g.membershipSteps(v)...)
+			return
+		}
+		a := g.pick("newleader", voters) // the only node that may campaign
+		var rest []string
+		for _, id := range voters {
+			if id != a {
+				rest = append(rest, id)
+			}
+		}
+		victim := g.pick("victim", rest) // votes for a, never hears from it again, is removed by it
+		var st []step
+		st = append(st, func(g *Gen, v View) (Action, bool) {
+			if n := g.C.Nodes[spare]; n != nil && !n.Stopped() {
+				return Action{Op: "advance", DurUs: 1000}, true
+			}
+			return Action{Op: "startempty", Node: spare}, true
+		})
+		// the old leader keeps only the spare node
+		for _, o := range g.C.Order {
+			if o != leader && o != spare {
+				st = append(st, lit(Action{Op: "link", Node: leader, Node2: o, Mode: "drop"}), lit(Action{Op: "link", Node: o, Node2: leader, Mode: "drop"}))
+			}
+		}
+		st = append(st, lit(Action{Op: "add", Node: leader, Node2: spare, Voter: true, Client: g.nextClient(), Timeout: 100}), advance(g.dur("d0", 5000, hb)))
+		// only a may ask for votes; what it sends to the victim is parked and only vote traffic is let through
+		for _, o := range voters {
+			if o != a {
+				for _, q := range g.C.Order {
+					if q != o {
+						st = append(st, lit(Action{Op: "link", Node: o, Node2: q, Mode: "noreq"}))
+					}
+				}
+			}
+		}
+		st = append(st, lit(Action{Op: "link", Node: a, Node2: victim, Mode: "held"}))
+		// further voters hear nothing from a either (it must not be able to commit in the old configuration)
+		for _, o := range rest {
+			if o != victim && len(rest) > 2 && rapid.Bool().Draw(t, "cutmore") {
+				st = append(st, lit(Action{Op: "link", Node: a, Node2: o, Mode: "held"}))
+			}
+		}
+		rounds := rapid.IntRange(8, 16).Draw(t, "rounds")
+		for i := 0; i < rounds; i++ {
+			st = append(st, advance(et/4))
+			for _, o := range rest {
+				st = append(st, lit(Action{Op: "releaselink", Node: a, Node2: o, Kind: "RV", Mode: "deliver"}))
+			}
+			// as soon as a leads: remove the victim, at once
+			st = append(st, func(g *Gen, v View) (Action, bool) {
+				if s, ok := v.Status[a]; ok && s.State == "leader" {
+					return Action{Op: "remove", Node: a, Node2: victim, Client: g.nextClient(), Timeout: 100}, true
+				}
+				return Action{Op: "advance", DurUs: 1000}, true
+			})
+		}
+		st = append(st, submitAt(a, "write"), advance(g.dur("d1", hb, 2*hb)))
+		// the old leader, the victim and the spare node find each other; a and its followers stay apart
+		side := []string{leader, victim, spare}
+		sort.Strings(side)
+		st = append(st, lit(Action{Op: "heal", Mode: "drop"}), lit(Action{Op: "partition", Set: side, Mode: "drop"}))
+		st = append(st, advance(g.dur("d2", 3*et, 5*et)))
+		st = append(st, func(g *Gen, v View) (Action, bool) {
+			id := newestLeaderExcept(v, a)
+			if id == "" {
+				return Action{Op: "advance", DurUs: et}, true
+			}
+			return Action{Op: "submit", Node: id, Kind: "write", Client: g.nextClient(), Timeout: 2000}, true
+		}, advance(g.dur("d3", hb, et)), submitAt(a, "write"), advance(hb))
+		st = append(st, lit(Action{Op: "heal", Mode: "deliver"}), advance(g.dur("d4", et, 3*et)))
+		g.push("P24", st...)
 	case "P10": // membership change under fault
 		g.push("P10", g.membershipSteps(v)...)
 	case "P11": // everything down, a strict majority (or everybody) comes back
